@@ -56,7 +56,7 @@ func Attribute(r *Result) *Attribution {
 			}
 		case ledger.RevertedTransactionLogPayload:
 			for i, op := range r.Plan.Ops {
-				if op.Kind == OpRevert && big.NewInt(op.TargetTx).Cmp(p.RevertedTransactionID) == 0 {
+				if op.Kind == OpRevert && big.NewInt(r.RevertTargetOf(i)).Cmp(p.RevertedTransactionID) == 0 {
 					cands = append(cands, i)
 				}
 			}
@@ -457,12 +457,12 @@ func CheckReverts(r *Result) *Verdict {
 			continue
 		}
 		if resp.OK {
-			ei, ok := revertedBy[fmt.Sprint(op.TargetTx)]
+			ei, ok := revertedBy[fmt.Sprint(r.RevertTargetOf(i))]
 			if !ok {
-				return bad("C10/success-without-entry", "revert request %s succeeded but no entry reverts tx %d", opDesc(r, i), op.TargetTx)
+				return bad("C10/success-without-entry", "revert request %s succeeded but no entry reverts tx %d", opDesc(r, i), r.RevertTargetOf(i))
 			}
 			if op.IK == "" && txJSON(entryTx(r.Store.Entries[ei].Log)) != txJSON(resp.Tx) {
-				return bad("C10/second-success", "revert request %s succeeded with %s but tx %d was reverted by %s", opDesc(r, i), txJSON(resp.Tx), op.TargetTx, txJSON(entryTx(r.Store.Entries[ei].Log)))
+				return bad("C10/second-success", "revert request %s succeeded with %s but tx %d was reverted by %s", opDesc(r, i), txJSON(resp.Tx), r.RevertTargetOf(i), txJSON(entryTx(r.Store.Entries[ei].Log)))
 			}
 		}
 	}
@@ -499,6 +499,10 @@ func CheckReferences(r *Result) *Verdict {
 				if j != i && other.Kind == OpCreate && other.Reference == op.Reference && r.Responses[j] != nil && r.SpawnStep[j] <= resp.Step {
 					just = true
 				}
+				// ... or its idempotency key belongs to a write of another kind (refused with the same class)
+				if j != i && op.IK != "" && other.IK == op.IK && other.Kind != op.Kind && r.Responses[j] != nil && r.SpawnStep[j] <= resp.Step {
+					just = true
+				}
 			}
 			if !just {
 				return bad("C11/spurious-conflict", "request %s was refused with CONFLICT although no other request ever used reference %q before it answered", opDesc(r, i), op.Reference)
@@ -514,8 +518,8 @@ func CheckReferences(r *Result) *Verdict {
 		eis := byRef[op.Reference]
 		if len(eis) == 1 && r.Store.Entries[eis[0]].Step < r.SpawnStep[i] && resp.ErrClass != "CONFLICT" && r.SpawnGen[i] >= 0 {
 			// committed strictly before this request started; the only admissible other errors are
-			// those raised before the reference is looked at (in-flight idempotency key)
-			if resp.ErrClass != "IK_IN_FLIGHT" && resp.ErrClass != "PANIC" {
+			// those raised before the reference is looked at (in-flight idempotency key, a failing store read, a cancelled caller)
+			if resp.ErrClass != "IK_IN_FLIGHT" && resp.ErrClass != "PANIC" && resp.ErrClass != "STORE_READ" && resp.ErrClass != "CANCELED" {
 				return bad("C11/wrong-error", "request %s reuses committed reference %q but was answered %s (%s) instead of CONFLICT", opDesc(r, i), op.Reference, resp.ErrClass, resp.ErrText)
 			}
 		}
